@@ -208,7 +208,7 @@ func init() {
 				"triples_decided":               r.Counters["triples_decided"],
 			}
 		},
-		Rule:        "per ecosystem: every candidate string from the token grammar and from all-strings<=L over the lexical alphabet is parsed; all ordered pairs of accepted strings are compared with the real Compare (both argument orders); sign range/reflexivity/antisymmetry per pair; transitivity for all N^3 triples by the rank criterion. states = candidate strings enumerated; transitions = generator token appends + Compare calls. distinct_nontrivial = number of ordered triples of pairwise different equivalence classes (c*(c-1)*(c-2) per ecosystem), a lower bound on triples that are pairwise distinct and not all equal.",
+		Rule:        "per ecosystem: every candidate string from the token grammar, from all-strings<=L over the lexical alphabet, from the leading-zero family and from the one-slot substitution closure of the ecosystem's typical shapes (each digit run x 22 numeric tokens incl. 2^16/2^32/2^53/2^64 neighbours, each letter run x 32 words, each separator x 9 separators, appended tokens) is parsed; all ordered pairs of accepted strings are compared with the real Compare (both argument orders); sign range/reflexivity/antisymmetry per pair; transitivity for all N^3 triples by the rank criterion. states = candidate strings enumerated; transitions = generator token appends + Compare calls. distinct_nontrivial = number of ordered triples of pairwise different equivalence classes (c*(c-1)*(c-2) per ecosystem), a lower bound on triples that are pairwise distinct and not all equal.",
 		Assumptions: []string{"strings outside the enumerated grammar/alphabet bounds are not covered", "alpm: triples mixing versions with and without an explicit pkgrel are excluded as the property states (three groups: no '-', ends in -digits, other '-')"},
 	})
 }
